@@ -383,3 +383,24 @@ PROPS["C10"] = dict(
         dict(name="stress", run="^TestAnonymousChildrenDistinct$", quick=1, thorough=1, timeout_thorough=3000),
     ],
 )
+
+PROPS["C08"] = dict(
+    pkg="c08", level="exploration",
+    technique="property-based generation (rapid) of concurrent workloads executed under the Go race detector, with a per-record oracle (every payload decoded and compared with the call that carries its unique id; multiset of delivered ids = admitted calls)",
+    claim=("rapid draws workloads: 1-8 loggers (roots and children, JSON/logfmt/colored, with own attributes and/or one Group value shared by "
+           "several loggers), G in {2..64} goroutines x up to 200 calls, calls at four severities (one not admitted), per-call attributes, the "
+           "same shared Group value passed by all goroutines, multi-line messages, error values with stack, GOMAXPROCS in {2,4,16}, recording "
+           "writers that yield the processor on a generated pattern. The binary is built with -race: any race report fails the run. Every "
+           "observed Write payload must be the complete record of exactly one admitted call (decoded with the C04/C05 decoders, colored via "
+           "stripped text) on the right logger's writer, and the ids seen must equal the admitted calls exactly once each. A second stage "
+           "stresses G=64 with larger N, also without the race detector."),
+    note="WEAKEST claim of the set: interleavings are sampled by the Go scheduler, not enumerated or controlled; the race detector only reports races on executed paths. Concurrent reconfiguration while logging is outside the claim and never generated. A race report cannot be shrunk by rapid (it is attributed to the whole test); the replay re-runs the stage with the same seed.",
+    rule=("Non-trivial: >= 2 goroutines share a logger and a group value or logger attributes or a parent/child pair are involved; distinct = "
+          "(formats present, sharing shape, G bucket, number of loggers, GOMAXPROCS, multi-line)."),
+    assumptions=["the recording writers are mutex-protected and copy the payload before returning"],
+    stages=[
+        dict(name="race", run="^TestConcurrentWorkloads$", race=True, crash_is_violation=True, quick=400, thorough=16000, shards=8, timeout_quick=900, timeout_thorough=3000),
+        dict(name="race-stress", run="^TestStress$", race=True, crash_is_violation=True, quick=10, thorough=400, shards=8, timeout_quick=900, timeout_thorough=3000),
+        dict(name="norace-stress", run="^TestStress$", crash_is_violation=True, quick=30, thorough=2000, shards=8, timeout_thorough=3000),
+    ],
+)
